@@ -2554,6 +2554,52 @@ func removesAtParam(p *Program, fn *ssa.Function, depth int) int {
 	return out
 }
 
+// handleComparedByContent: fn (or an unexported helper it hands its *Paragraph parameter to) calls a
+// deep-comparison function with that handle as an argument.
+func handleComparedByContent(p *Program, fn *ssa.Function) string {
+	var handle *ssa.Parameter
+	for _, par := range fn.Params[1:] {
+		if typeIs(par.Type(), pkgDoc, "Paragraph") {
+			handle = par
+		}
+	}
+	if handle == nil {
+		return ""
+	}
+	found := ""
+	var scan func(g *ssa.Function, h ssa.Value, depth int)
+	scan = func(g *ssa.Function, h ssa.Value, depth int) {
+		if depth > 2 || found != "" {
+			return
+		}
+		allInstrs(g, func(in ssa.Instruction) {
+			c, ok := in.(*ssa.Call)
+			if !ok {
+				return
+			}
+			uses := -1
+			for i, a := range c.Call.Args {
+				if stripIface(a) == h {
+					uses = i
+				}
+			}
+			if uses < 0 {
+				return
+			}
+			switch cn := calleeName(c); cn {
+			case "reflect.DeepEqual", "bytes.Equal":
+				found = cn
+				return
+			}
+			if cal := staticCallee(c); cal != nil && p.inModule(cal) && cal != g && uses < len(cal.Params) {
+				scan(cal, cal.Params[uses], depth+1)
+			}
+		})
+	}
+	scan(fn, handle, 0)
+	return found
+}
+
 // delegatesToHandleRemoval: fn has an integer parameter and no *Paragraph parameter, and calls a
 // module function with a *Paragraph argument that splices Body.Elements at a position selected by
 // comparing elements with that argument.
@@ -2661,6 +2707,14 @@ func ruleRemoveTyped(r *Run) {
 				}
 			}
 		})
+		// a handle is matched by IDENTITY: a comparison by content (reflect.DeepEqual, …) on the way to
+		// the splice accepts a removed or foreign handle whenever some remaining paragraph looks the
+		// same, and removes that one
+		if byContent := handleComparedByContent(p, fn); byContent != "" {
+			n++
+			r.Check("remove-typed", shortName(fn)+":identity", fn.Pos(), false,
+				fmt.Sprintf("%s locates the paragraph to remove with %s on its handle: a handle that is no longer (or never was) in the body is not rejected when another paragraph has equal content — the call reports success and removes that other element", shortName(fn), byContent))
+		}
 		if sites == 0 {
 			// an index-keyed removal that hands a *Paragraph to another removal of this family: the
 			// position is then found again by identity (first element that IS the handle), which is the
